@@ -234,8 +234,17 @@ def run(ctx):
     if thorough:
         fam.update(FAMILY_THOROUGH)
     cov = {}
+    small = [n for n in fam if n.startswith("unwired")]
+    with ThreadPoolExecutor(max_workers=4) as ex:   # the tiny reader-subset configs: a few at a time
+        fut_small = {n: ex.submit(ctx.tlc, S, "MC_MetricSum", "MC_MetricSum.cfg", defines=mc_defs(**fam[n]), name="mc-" + n,
+                                  timeout=3000, coverage=True, workers=2, count=False) for n in small}
+        small_res = {n: f.result() for n, f in fut_small.items()}
+    for r in small_res.values():      # counted here (not from the worker threads)
+        ctx.states += r["distinct"]
+        ctx.transitions += r["generated"]
     for name, kw in fam.items():
-        r = ctx.tlc(S, "MC_MetricSum", "MC_MetricSum.cfg", defines=mc_defs(**kw), name="mc-" + name, timeout=3000, coverage=True)
+        r = small_res.get(name) or ctx.tlc(S, "MC_MetricSum", "MC_MetricSum.cfg", defines=mc_defs(**kw), name="mc-" + name,
+                                           timeout=3000, coverage=True)
         for line in open(r["out"], errors="replace"):
             m = re.match(r"<(\w+) line \d+, col \d+ to line \d+, col \d+ of module MetricSum>: (\d+):(\d+)", line)
             if m and m.group(1) != "Init":
@@ -255,12 +264,30 @@ def run(ctx):
     live = dict(readers=R(DP), streams=["k1"], plan={"g1": [("k1", 0)]}, cols={"c1": "r1"}, ncol=1,
                 flushers={"f1": "r1"}, stoppers={"s1": "r1"}, maxticks=1 if thorough else 0)
     ctx.tlc(S, "MC_MetricSum", "MC_MetricSum_live.cfg", defines=mc_defs(**live), name="live-dp", timeout=3000)
-    # broken mechanisms: TLC must find each of them
+    # broken mechanisms: TLC must find each of them.  These runs, D1-strict and the simulations below last seconds
+    # each (JVM start-up dominates): they run a few at a time
+    pool = ThreadPoolExecutor(max_workers=4)
+
+    def broken(variant):
+        kw = dict(FAMILY_QUICK[BROKEN[variant]])
+        return ctx.tlc(S, "MC_MetricSum", "MC_MetricSum.cfg", defines=mc_defs(variant=variant, **kw), name="broken-" + variant,
+                       must_pass=False, count=False, timeout=1200, workers=2)
+
+    def sim(name):
+        return ctx.tlc(S, "MC_MetricSumSim", "MC_MetricSumSim.cfg", defines=mc_defs(eager=True, conserved=False, **SIMS[name]),
+                       workers=1, simulate="num=%d" % (150 if thorough else 25), depth=400, name=name, timeout=1200)
+
+    def d1strict():
+        return ctx.tlc(S, "MC_MetricSum", "MC_MetricSum.cfg",
+                       defines=mc_defs(cberr=True, strict=True, **dict(FAMILY_QUICK["dp-g1x2-c1-f1-s1-t1"])), name="mc-D1-strict",
+                       must_pass=False, count=False, timeout=1200, workers=2)
+
+    fut_broken = {v: pool.submit(broken, v) for v in BROKEN}
+    fut_d1 = pool.submit(d1strict)
+    fut_sim = {n: pool.submit(sim, n) for n in SIMS}
     found = {}
-    for variant, cfgname in BROKEN.items():
-        kw = dict(FAMILY_QUICK[cfgname])
-        r = ctx.tlc(S, "MC_MetricSum", "MC_MetricSum.cfg", defines=mc_defs(variant=variant, **kw), name="broken-" + variant,
-                    must_pass=False, count=False, timeout=1200)
+    for variant in BROKEN:
+        r = fut_broken[variant].result()
         found[variant] = r["violated"]
         if r["violated"] != "Contract":
             ctx.note_inconclusive("model drift: TLC does not find the broken variant %s (%s, see %s)" % (variant, r["violated"], r["out"]))
@@ -268,8 +295,7 @@ def run(ctx):
     # known deviation D1 (callback error -> periodic reader drops the interval): the model exhibits it (Strict violated),
     # and with D1 admitted nothing else breaks
     kw = dict(FAMILY_QUICK["dp-g1x2-c1-f1-s1-t1"])
-    r = ctx.tlc(S, "MC_MetricSum", "MC_MetricSum.cfg", defines=mc_defs(cberr=True, strict=True, **kw), name="mc-D1-strict",
-                must_pass=False, count=False, timeout=1200)
+    r = fut_d1.result()
     ctx.extra["model_exhibits_D1"] = (r["violated"] == "Strict")
     if r["violated"] != "Strict":
         ctx.note_inconclusive("model drift: TLC does not find D1 when it is not admitted (%s, see %s)" % (r["violated"], r["out"]))
@@ -278,16 +304,15 @@ def run(ctx):
 
     # ------------------------------------------------------------ spec -> code: behaviours as gate scripts
     scenarios = []
-    nsim = 150 if thorough else 25
     seen = set()
     for name, kw in SIMS.items():
-        r = ctx.tlc(S, "MC_MetricSumSim", "MC_MetricSumSim.cfg", defines=mc_defs(eager=True, conserved=False, **kw), workers=1,
-                    simulate="num=%d" % nsim, depth=400, name=name, timeout=1200)
+        r = fut_sim[name].result()
         for s in r["prints"]:
             if isinstance(s, str) and s.startswith("BEHAVIOUR ") and s not in seen:
                 seen.add(s)
                 b = json.loads(s[len("BEHAVIOUR "):])
                 scenarios.append(scenario_of(name, kw, b["script"]))
+    pool.shutdown()
     nbeh = len(scenarios)
     for d in DIRECTED:
         for rep in range(4 if thorough else 2):
